@@ -115,9 +115,16 @@ Definition tar_loop (e : expr) : bool :=
       [ECall (EPath ["register_file"]) (ETry (EPath [f']) :: _)] => String.eqb f f'
   | _ => false
   end.
+(* the registration loop is the last thing done to the index: the statement after it is the final
+   Ok(..) that moves the tables into the source (no post-pass over the listings) *)
+Definition loop_is_last (loop : expr -> bool) (f : fn_def) : bool :=
+  match rev (fn_body f) with
+  | ECall (EPath ["Ok"]) [EStruct _ _] :: l :: _ => loop l
+  | _ => false
+  end.
 Definition create_wf (loop : expr -> bool) (f : fn_def) : bool :=
   match find_index is_root_registration (fn_body f), find_index loop (fn_body f) with
-  | Some i, Some j => Nat.ltb i j && Nat.eqb (List.length (filter (fun e => existsb (fun x => match x with ECall (EPath ["register_file"]) _ => true | _ => false end) (subexprs depth_fuel e)) (fn_body f))) 1
+  | Some i, Some j => Nat.ltb i j && loop_is_last loop f && Nat.eqb (List.length (filter (fun e => existsb (fun x => match x with ECall (EPath ["register_file"]) _ => true | _ => false end) (subexprs depth_fuel e)) (fn_body f))) 1
   | _, _ => false
   end.
 
